@@ -1,5 +1,5 @@
 """Checks that are not count campaigns: arithmetic (C12, C13), printing (C14)."""
-import random, collections, itertools, time
+import random, collections, itertools, time, fractions
 from fractions import Fraction
 import common, gen, campaign, findings, implrun, implops
 from props import prop, rng_for, budget, THEOREMS, first_diff, describe
@@ -159,6 +159,33 @@ def C12(run):
     items = gen_ops(rng, budget(run, 40000, 600000), ['fixed', 'fixed', 'integer', 'rational'])
     items += grid_ops(['fixed'], R=budget(run, 5, 12), ps=(0, 1, 2) if run.tier == 'quick' else (0, 1, 2, 3, 4))
     stats, nspec, nmodel = arithmetic_check(run, items, 'C12')
+    # rational values combined with plain ints and Fractions, on either side (reflected operators included)
+    mixed = []
+    for _ in range(budget(run, 6000, 60000)):
+        mag = rng.choice([3, 30, 10 ** 4, 10 ** 12])
+        xs = '%d/%d' % (rng.randint(-mag, mag), rng.randint(1, mag))
+        ys = str(rng.randint(-mag, mag)) if rng.random() < 0.5 else '%d/%d' % (rng.randint(-mag, mag), rng.randint(1, mag))
+        mixed.append((rng.choice(['add', 'sub', 'mul', 'div', 'floordiv', 'mod']), rng.random() < 0.6, xs, ys))
+    mres = common.pmap(implops.run_mixed, mixed, limit=10.0, chunksize=200)
+    nmixed_bad = 0
+    for it, r in zip(mixed, mres):
+        op, left, xs, ys = it
+        fx = fractions.Fraction(*map(int, xs.split('/')))
+        fy = fractions.Fraction(*map(int, ys.split('/'))) if '/' in ys else fractions.Fraction(int(ys))
+        a, b = (fy, fx) if left else (fx, fy)
+        try:
+            e = {'add': lambda: a + b, 'sub': lambda: a - b, 'mul': lambda: a * b, 'div': lambda: a / b,
+                 'floordiv': lambda: fractions.Fraction(a // b), 'mod': lambda: a % b}[op]()
+            want = '%d/%d' % (e.numerator, e.denominator)
+        except ZeroDivisionError:
+            want = 'ZeroDivisionError'
+        if r != want:
+            nmixed_bad += 1
+            if nmixed_bad <= 2:
+                run.violation(dict(kind='implementation', what='C12: Rational combined with a plain %s on the %s: result is not the exact value of its own class'
+                                   % ('Fraction' if '/' in ys else 'int', 'left' if left else 'right'),
+                                   op=op, rational=xs, other=ys, other_is_left_operand=left, implementation=r, specification=want))
+    stats['rational:mixed-operands'] = len(mixed)
     # integer arithmetic is the zero-place case
     same0 = 0
     for it in items[:4000]:
